@@ -123,6 +123,31 @@ def find_expect(stmts):
     return None, None
 
 
+HELPERS = {}
+
+
+def expand_helpers(t, depth=0):
+    """calls of single-return member helpers of span (an extracted tail_ptr_(n), remaining_(off)) are replaced by what they return"""
+    if not isinstance(t, tuple):
+        return t
+    t = tuple(expand_helpers(x, depth) if isinstance(x, tuple) else x for x in t)
+    if len(t) >= 2 and t[0] == "call" and isinstance(t[1], tuple) and depth < 3:
+        nm = t[1][1] if t[1][0] == "ref" else (t[1][2] if t[1][0] == "mem" and t[1][1] == ("this",) else None)
+        h = HELPERS.get(nm)
+        if h is not None and len(ir.params(h)) == len(t) - 2:
+            ks = ir.kids(ir.body(h))
+            m = dict(zip([p.get("name") for p in ir.params(h)], t[2:]))
+
+            def subst(x):
+                if not isinstance(x, tuple):
+                    return x
+                if x[0] == "ref" and x[1] in m:
+                    return m[x[1]]
+                return tuple(subst(y) if isinstance(y, tuple) else y for y in x)
+            return expand_helpers(subst(ir.sx(ir.ekids(ks[0])[0])), depth + 1)
+    return t
+
+
 def analyse_accessor(rep, d, fn, symmap):
     name = fn.get("name")
     label = "span::%s%s" % (name, "<>" if not ir.params(fn) and name in ("first", "last", "subspan") else "(%s)" % ", ".join(p.get("name", "") for p in ir.params(fn)))
@@ -132,7 +157,7 @@ def analyse_accessor(rep, d, fn, symmap):
     if len(ret) != 1:
         rep.inconclusive("C16.range", label, "return", where=where, detail="expected a single return")
         return
-    rt = ir.sx(ir.ekids(ret[0])[0])
+    rt = expand_helpers(ir.sx(ir.ekids(ret[0])[0]))
     nonneg = set(UNSIGNED_SYMS) | {p.get("name") for p in ir.params(fn) if "index_type" in ir.wtype(p) or "size_t" in ir.wtype(p) or "unsigned" in ir.qtype(p)}
     exp_node, cond = find_expect(stmts)
     if cond is None:
@@ -163,12 +188,33 @@ def analyse_accessor(rep, d, fn, symmap):
 
 def data_plus(t, symmap):
     """data() + X -> Lin X (data() alone -> 0)"""
-    is_data = lambda u: u[0] == "call" and len(u) == 2 and (u[1] == ("ref", "data") or (u[1][0] == "mem" and u[1][2] == "data"))
+    # the start of the viewed sequence in any of its spellings: data(), begin(), or the stored pointer itself
+    def is_data(u):
+        while u[0] == "cast":
+            u = u[3]
+        if u[0] == "call" and len(u) == 2 and (u[1] in (("ref", "data"), ("ref", "begin"), ("ref", "cbegin")) or (u[1][0] == "mem" and u[1][1] == ("this",) and u[1][2] in ("data", "begin", "cbegin"))):
+            return True
+        return u[0] == "mem" and u[2] == "ptr" and u[1][0] == "mem" and u[1][2] == "storage_" and u[1][1] == ("this",)
+    while t[0] == "cast":
+        t = t[3]
     if is_data(t):
         return Lin(), ("lit", "0")
     if t[0] == "bin" and t[1] == "+" and is_data(t[2]):
         return lin(t[3], symmap), t[3]
+    if t[0] == "bin" and t[1] == "+" and is_data(t[3]):
+        return lin(t[2], symmap), t[2]
     return None, None
+
+
+def deref_form(rt):
+    """*(P) or P[i] -> the pointer term P (+ i), else None"""
+    while rt[0] == "cast":
+        rt = rt[3]
+    if rt[0] == "un" and rt[1] == "*":
+        return rt[2]
+    if rt[0] == "index":
+        return ("bin", "+", rt[1], rt[2])
+    return None
 
 
 def check_return(rep, d, label, where, scen, rt, dyn, facts, nonneg, symmap):
@@ -215,8 +261,8 @@ def check_return(rep, d, label, where, scen, rt, dyn, facts, nonneg, symmap):
             rep.holds("C16.range", label, "returned view", where=where, scenario=scen,
                       detail="{data() + (%s), %s} within [0, size()]" % (px.show(), py.show()))
         return
-    if rt[0] == "un" and rt[1] == "*":
-        px, xt = data_plus(rt[2], symmap)
+    if deref_form(rt) is not None:
+        px, xt = data_plus(deref_form(rt), symmap)
         if px is None:
             rep.inconclusive("C16.range", label, "returned reference", where=where, scenario=scen, detail=ir.show(rt)[:120])
             return
@@ -232,45 +278,79 @@ def check_return(rep, d, label, where, scen, rt, dyn, facts, nonneg, symmap):
 
 
 def rule_at(rep, d, fn, symmap, noexc=False):
+    """path-wise: on every path that returns the element the recorded conditions (locals read through) entail idx < size(); the other paths
+    throw std::out_of_range (or, without exceptions, reach std::terminate/abort)"""
+    from .. import flow
+    from .. import fstring as fs
     label = "span::at(idx)" + (" [-fno-exceptions]" if noexc else "")
     where = d.where(fn)
-    stmts = ir.kids(ir.body(fn))
-    ifs = [s for s in stmts if s.get("kind") == "IfStmt"]
-    if not ifs:
-        rep.violates("C16.at", label, "bounds test", where=where, detail="at() contains no test of the index against size()")
-        return
-    s = ifs[0]
-    ks = ir.ekids(s)
-    cond = ir.sx(ks[0])
-    throws = any(x.get("kind") == "CXXThrowExpr" for x in ir.walk_expr(ks[1]))
-    if noexc:
-        throws = any(x.get("kind") == "CallExpr" and ir.sx(x)[0] == "call" and ir.show(ir.sx(x)[1]).split("::")[-1] in ("terminate", "abort") for x in ir.walk_expr(ks[1]))
-    if not throws:
-        rep.violates("C16.at", label, "bounds test", where=d.where(s), detail="the out-of-range branch does not %s" % ("terminate the process" if noexc else "throw"))
-        return
-    thrown = [ir.qtype(ir.ekids(x)[0]) for x in ir.walk_expr(ks[1]) if x.get("kind") == "CXXThrowExpr" and ir.ekids(x)]
-    # an index or size converted to a signed type before the comparison is not the value being compared: indices above PTRDIFF_MAX
-    # (e.g. i - 1 with i == 0) become negative and pass
-    narrowing = [t for t in ir.subterms(cond) if t[0] == "cast" and str(t[2]).replace("const ", "") in ("long", "int", "long long", "short", "signed char", "std::ptrdiff_t")
-                 and t[3][0] != "lit"]
-    if narrowing:
-        rep.violates("C16.at", label, "bounds test", where=d.where(s),
-                     detail="the test `%s` compares after converting an unsigned index/size to the signed type %s: an index above PTRDIFF_MAX turns negative and is accepted" % (
-                         ir.show(cond)[:120], narrowing[0][2]))
-        return
-    # the fall-through path has the negated condition as its facts
-    nonneg = {"S", "idx"} | {p.get("name") for p in ir.params(fn)}
-    cases = guard_cases(("un", "!", cond), symmap, nonneg)
+    loc = fs.local_sx(fn)
     pname = ir.params(fn)[0].get("name")
+    nonneg = {"S", "idx"} | {p.get("name") for p in ir.params(fn)}
     goal = Lin({"S": 1, pname: -1, "": -1})
-    ok = bool(cases) and all(entails(f, goal, nonneg) for f, _, _ in cases)
-    if ok:
-        rep.holds("C16.at", label, "bounds test", where=d.where(s), detail="fall-through implies %s < size(); throws %s" % (pname, thrown))
-    else:
-        rep.violates("C16.at", label, "bounds test", where=d.where(s),
-                     detail="passing `!(%s)` does not imply %s < size(): some index >= size() is not rejected" % (ir.show(cond), pname))
-    if not noexc and thrown and not any("out_of_range" in t for t in thrown):
-        rep.violates("C16.at", label, "exception type", where=d.where(s), detail="throws %s, not std::out_of_range" % thrown)
+
+    def is_stop(n):
+        return n.get("kind") == "CallExpr" and ir.sx(n)[0] == "call" and ir.show(ir.sx(n)[1]).split("::")[-1] in ("terminate", "abort", "_Exit", "quick_exit")
+    paths = flow.function_paths(fn, with_ctor_inits=False, may_throw=lambda n: False)
+    n_ret = n_rej = 0
+    bad = None
+    thrown = []
+    for path in paths:
+        atoms = []
+        raws = []
+        stopped = False
+        for st in path:
+            if st[0] == "cond":
+                raw = ir.sx(st[1])
+                raws.append(raw)
+                raws += [loc[x[1]] for x in ir.subterms(raw) if x[0] == "ref" and x[1] in loc]      # casts are looked for in the unsubstituted terms
+                t = fs.subst_locals(raw, loc)
+                atoms.append(t if st[2] else ("un", "!", t))
+            elif st[0] == "ev" and is_stop(st[1]):
+                stopped = True
+                break
+        end = path[-1]
+        if stopped or end[0] == "escape" or end[0] == "throw" or any(st[0] == "throw" for st in path):
+            n_rej += 1
+            for st in path:
+                if st[0] == "throw" and st[1] is not None and st[1].get("kind") == "CXXThrowExpr" and ir.ekids(st[1]):
+                    thrown.append(ir.qtype(ir.ekids(st[1])[0]))
+            continue
+        if end[0] != "return":
+            bad = (fn, "a path leaves at() without returning an element or rejecting the index")
+            break
+        n_ret += 1
+        # an index or size converted to a signed type before the comparison is not the value being compared
+        for t in raws:
+            narrowing = [x for x in ir.subterms(t) if x[0] == "cast" and str(x[2]).replace("const ", "") in ("long", "int", "long long", "short", "signed char", "std::ptrdiff_t") and x[3][0] != "lit"]
+            if narrowing:
+                bad = (end[1], "the test `%s` compares after converting an unsigned index/size to the signed type %s: an index above PTRDIFF_MAX turns negative and is accepted" % (ir.show(t)[:120], narrowing[0][2]))
+        if bad:
+            break
+        if not atoms:
+            bad = (end[1], "the element is returned on a path that does not test the index against size()")
+            break
+        f = atoms[0]
+        for t in atoms[1:]:
+            f = ("bin", "&&", f, t)
+        cases = guard_cases(f, symmap, nonneg)
+        if not cases or not all(entails(fc, goal, nonneg) for fc, _, _ in cases):
+            bad = (end[1], "the element is returned on a path whose conditions `%s` do not imply %s < size(): some index >= size() is not rejected" % (ir.show(f)[:140], pname))
+            break
+    if bad is None and n_ret == 0:
+        bad = (fn, "no path returns an element")
+    if bad is None and n_rej == 0:
+        bad = (fn, "at() contains no path that %s" % ("terminates the process" if noexc else "throws"))
+    if bad:
+        rep.violates("C16.at", label, "bounds test", where=d.where(bad[0]), detail=bad[1])
+        return
+    rep.holds("C16.at", label, "bounds test", where=where, detail="%d returning path(s) imply %s < size(); %d rejecting path(s)%s" % (n_ret, pname, n_rej, " throw %s" % sorted(set(thrown)) if thrown else ""))
+    if not noexc:
+        thr_all = [ir.qtype(ir.ekids(x)[0]) for x in ir.walk_expr(ir.body(fn)) if x.get("kind") == "CXXThrowExpr" and ir.ekids(x)]
+        if thr_all and not any("out_of_range" in t for t in thr_all):
+            rep.violates("C16.at", label, "exception type", where=where, detail="throws %s, not std::out_of_range" % thr_all)
+        elif not thr_all:
+            rep.violates("C16.at", label, "bounds test", where=where, detail="the out-of-range branch does not throw")
 
 
 def rule_shape(rep, d, methods, ctors, symmap):
@@ -323,7 +403,7 @@ def rule_shape(rep, d, methods, ctors, symmap):
             expect(name, ok, got, "empty() must be equivalent to size() == 0")
         elif name == "front":
             # handled as element access by analyse_accessor; here only that it designates element 0
-            px, _ = data_plus(rt[2], symmap) if rt[0] == "un" and rt[1] == "*" else (None, None)
+            px, _ = data_plus(deref_form(rt), symmap) if deref_form(rt) is not None else (None, None)
             expect(name, px is not None and px == Lin(), got, "front() must be *data()")
         elif name in ("cbegin", "cend"):
             want = ("call", ("ref", name[1:]))
@@ -513,6 +593,15 @@ def run(tier):
             ctors.append(fn)
         else:
             methods.setdefault(fn.get("name"), []).append(fn)
+    HELPERS.clear()
+    for nm, fl in methods.items():
+        if nm in ("first", "last", "subspan", "operator[]", "at", "front", "back", "begin", "end", "size_bytes", "empty", "data", "size", "cbegin", "cend",
+                  "rbegin", "rend", "crbegin", "crend") or nm.startswith("operator"):
+            continue
+        for f_ in fl:
+            ks_ = ir.kids(ir.body(f_)) if ir.body(f_) else []
+            if len(ks_) == 1 and ks_[0].get("kind") == "ReturnStmt" and ir.ekids(ks_[0]) and ir.params(f_):
+                HELPERS[nm] = f_
     need = ["first", "last", "subspan", "operator[]", "at", "front", "back", "begin", "end", "size_bytes", "empty"]
     missing = [n for n in need if n not in methods]
     if missing:
